@@ -71,6 +71,14 @@ CLAIMED = {
          "client's text for every edit sequence is the conjunction of these with std's String contracts and is not decided as a whole.",
          "Trusted: rustc MIR/resolution; String::replace_range, char_indices, len_utf16 contracts; three reviewed arithmetic sites (spec/c23_sites.txt).",
          "DESIGN.md §3 C23"),
+ "C20": ("E-TAB+E-MIR", "other", "writer/reader agreement: Display format skeletons vs FromStr separator calls (syn), separator direction against a field-character-class grammar table, keyword-table inverse, MIR FIELDS symmetry of PkgLock::from_node / Lock::to_graph",
+         "Decides: for each pinned-source kind and for dependency lines the reader consumes exactly the separators the writer emits and takes "
+         "each from the side on which the neighbouring fields cannot contain it; git reference keywords, the member keyword and the source "
+         "prefixes are inverse / distinct; every PkgLock field written is read back, library and contract dependency lists are not swapped, "
+         "salts are rebuilt, and both directions disambiguate names with the same function. Equality of the reconstructed graph for all "
+         "graphs also depends on third-party Display/FromStr pairs and is not decided.",
+         "Trusted: syn; rustc MIR; spec/c20_grammar.txt character classes; semver / gix-url / cid / fuel-tx Display-FromStr round-trips.",
+         "DESIGN.md §3 C20"),
  "C21": ("E-MIR", "proof", "MIR call-graph cone + panic-site enumeration with dominator-checked guard idioms",
          "Every potentially panicking MIR construct reachable from Lock::from_path / Lock::to_graph / source::Pinned::from_str "
          "is enumerated on each run and must be discharged by a machine-checked idiom or a reviewed, exactly keyed site; "
